@@ -12,6 +12,10 @@ CORRESPONDENCES = {
     "spec": {"sub": "spec", "cases": {"quick": 12000, "thorough": 300000}, "shards": {"quick": 6, "thorough": 16}},
     # K-proc: the real cambrian binary with scripted objprog children (release files, /proc scan) vs L7/L8/L9
     "proc": {"sub": "proc", "cases": {"quick": 96, "thorough": 1600}, "shards": {"quick": 8, "thorough": 16}},
+    # K-sel / K-live / K-mix / benchmark battery (C17): select_ref frequencies vs selPmf, mutation liveness, mixed offspring, known-optimum runs
+    "dir": {"sub": "dir", "cases": {"quick": 336, "thorough": 4000}, "shards": {"quick": 8, "thorough": 16}},
+    # twin runs (C09): the same scripted run twice in one process and once in a fresh process
+    "twin": {"sub": "twin", "cases": {"quick": 48, "thorough": 600}, "shards": {"quick": 8, "thorough": 16}},
     "ctl": {"sub": "ctl", "cases": {"quick": 1500, "thorough": 40000}, "shards": {"quick": 4, "thorough": 16}},
 }
 
@@ -53,6 +57,23 @@ PROC_TRUST = [
 ]
 
 PROPS = {
+    "C09": {
+        "modules": ["CambrianModel.Props.C09"],
+        "theorems": ["Cambrian.Props.C09_fun", "Cambrian.Props.C09_causal", "Cambrian.Props.C09_noop", "Cambrian.Props.C09_noop_done",
+                     "Cambrian.Props.C09_seeds_ids"],
+        "correspondences": ["twin", "ctl"],
+        "trusted": CTL_TRUST + ["the stream of random decisions (StdRng::seed_from_u64(0) threaded through crossover/mutation/meta adaptation) and FxHashMap iteration order are outside the model: decided by the twin-run correspondence and source lint L2"],
+        "assumptions": ["partial: 'the real random stream is a function of the inputs' is a differential test (twin runs in-process and cross-process), not a theorem"],
+    },
+    "C17": {
+        "modules": ["CambrianModel.Props.C17"],
+        "theorems": ["Cambrian.Props.C17_sel_dist", "Cambrian.Props.C17_sel_sum", "Cambrian.Props.C17_sel_nonneg", "Cambrian.Props.C17_sel_mono",
+                     "Cambrian.Props.C17_live_mut", "Cambrian.Props.C17_live_bool"],
+        "correspondences": ["dir", "ops"],
+        "trusted": OPS_TRUST + ["selection.rs is modelled exactly over Rat (selDist); tied to the code by K-sel (4e4 / 4e5 draws per case, 6-sigma band, pressures k/16)",
+                                "the benchmark battery (sphere 2/5/10-D at three scales, optimum on a bound, integer grid, one-max, map size, variant/enum choice; nc 1 and 4, two completion orders) is a deterministic regression run against the thresholds of Sel.goals: a test"],
+        "assumptions": ["partial: the benchmark clause and the 'within a few attempts' / 'mixed offspring' clauses are experiments (64 attempts each)"],
+    },
     "C07": {
         "modules": ["CambrianModel.Props.C07"],
         "theorems": ["Cambrian.Props.C07_finished_not_killed", "Cambrian.Props.C07_timeout", "Cambrian.Props.C07_paths",
